@@ -178,3 +178,23 @@ PROPS["C16"] = dict(
     require_counters={"any": {"configurations_accepted": 5, "structures_verified": 5, "outcome_determined_recovered": 1000, "outcome_undetermined_incomplete": 1000}},
     assumptions=_codec_assume,
 )
+
+PROPS["C17"] = dict(
+    jobs=BOTH,
+    rule="one case = one operation sequence over up to three sparse matrices, mirrored on a boolean-array model: allocate, insert, find, delete, clear, copy, copyrows, copycols, the _opt copy variants (empty destination), copy_filled_matrix, "
+         "sparse->dense->sparse, free; after every operation a structural walk of every row and column list (strict order, left/right/up/down consistency, counts) and periodically find() on every cell; "
+         "all sequences of length<=4 (quick) / 5 (thorough) over a 2x3 matrix exhaustively, scripted hostile sequences, random sequences up to 70x70 filled beyond one 1024-entry block; allocation ledger must be empty after freeing. all cases non-trivial",
+    exhaustive_subspaces={"quick": ["all 15-letter operation sequences of length <= 4 on a 2x3 matrix"], "thorough": ["all 15-letter operation sequences of length <= 5 on a 2x3 matrix"]},
+    budget_s={"quick": 240, "thorough": 3600}, case_timeout_s=60, hang_class="sparse-sequence",
+    require_counters={"any": {"sparse_operations": 1000000, "exhaustive_small_sequences": 50000}},
+    assumptions=["preconditions are those of the headers: in-range indices, destination at least as large, _opt copy variants only into an empty destination"],
+)
+PROPS["C18"] = dict(
+    jobs=BOTH,
+    rule="one case = one random operation sequence on dense matrices (rows 1..72, column counts {1,2,7,31,32,33,63,64,65,95,96,97,130}, destinations equal to and larger than the source) mirrored on a byte-per-bit model and compared cell by cell, "
+         "or one p x q system (p in {q,q+1,q+5,2q}) with a planted symbol solution handed to of_linear_binary_code_solve_dense_system — full column rank and deliberately rank-deficient (duplicate / zero / dependent column) in equal numbers, rank decided by gf2.c; "
+         "popcount helpers on all 2^16 low and high half-words. all cases non-trivial",
+    budget_s={"quick": 900, "thorough": 7200},
+    require_counters={"any": {"dense_operations": 1000000, "solver_full_rank_systems": 2000, "solver_rank_deficient_systems": 2000}},
+    assumptions=["all right-hand sides of the solver are real (non-NULL) symbols, as the property states"],
+)
